@@ -709,7 +709,7 @@ class Engine:
                     s2.cond.append(("variant", d[1], tuple(listed), False))
                 outs.append((s2, otherwise))
             return outs
-        if t.get("discr_ty") == "bool" or (len(targets) == 1 and targets[0][0] == 0):
+        if t.get("discr_ty") == "bool" or (t.get("discr_ty") is None and len(targets) == 1 and targets[0][0] == 0):
             # bool switch: [0: F, otherwise: T]
             fb = targets[0][1]
             # already decided on this path?
@@ -865,7 +865,7 @@ class Engine:
         # occurrence index of this callee on the current path: stable across rows and runs
         n = 0
         for e in st.events:
-            if e[0] in ("call", "uniq") and e[1] == target:
+            if e[0] == "uniq" and e[1] == target:
                 n += 1
         st.events.append(("uniq", target))
         return n
